@@ -1066,7 +1066,8 @@ def exhaustive(ctx, pending, flush):
 # ---------------------------------------------------------------------------------------------
 
 def probes(ctx, pending):
-    """Fixed cases for the corners the random generator reaches only now and then."""
+    """Fixed cases for the corners the random generator reaches only now and then (several are regression guards
+    for defects repaired in /repo: 1805c2fd speed-up fallback, 4cfa9b0d atomic partial_fit)."""
     X = [[0.0, 0.0], [1.0, 0.0], [0.0, 2.0], [3.0, 1.0]]
     y0 = [0.0, 1.0, NAN, 1.0]
     base = dict(n=4, X=X, y0=y0, sw0=None, ignore_pf=False, unique=False, speed=False, prefit=None, init_sb=False,
